@@ -240,6 +240,11 @@ def _twin_flatten(m):
 
 
 def _flatten_zero_size(case):
+    from vf import optcommon
+
+    for f in case.get("feeds", []):
+        if any(0 in optcommon.arr_from_json(v).shape for v in f.values()):
+            return bool(nodes(M(case), "Flatten"))  # symbolic dim bound to 0 at run time
     sh = shapes(case)
     for n in nodes(M(case), "Flatten"):
         s = sh.get(n.input[0])
@@ -501,8 +506,9 @@ def _known_c05():
 
 
 def reduces_to_known_rule_finding(case):
-    """Some single rewrite-rule unit of the default set, applied alone to the same model and inputs, reproduces a violation
-    that is itself attributed to a recorded C05 finding (and no unit produces an unattributed violation)."""
+    """Some single rewrite-rule unit of the default set, applied alone (plain or commuted, as the default set does) to the same
+    model and inputs, reproduces a violation that is itself attributed to a recorded C05 finding - and no unit produces a
+    violation that no recorded finding covers."""
     from vf import optcommon
     from vf.props import C05
 
@@ -514,32 +520,139 @@ def reduces_to_known_rule_finding(case):
         gm = modelgen.GenModel(m, {}, [tuple(x) for x in case["input_specs"]], [], [], 0, 0, {}, case["declared"])
         b = {(tuple(k) if isinstance(k, list) else k): v for k, v in case["binding"]}
         feeds = [gm.feeds_for_binding(b, case.get("seed", 0))]
+    feeds_json = case.get("feeds") or [optcommon.feeds_to_json(f) for f in feeds]
     known = _known_c05()
     hit = False
     for unit in sorted(C05.rule_units()):
-        if unit.startswith("fusion."):
-            continue
-        verdicts, info = C05.check(m, unit, feeds)
-        if not info.get("fired") and not verdicts:
-            continue
-        for bucket, _ in verdicts:
-            sub = {"rule": unit, "model": case["model"], "feeds": case.get("feeds", [optcommon.feeds_to_json(f) for f in feeds]), "commute": False}
-            ok = False
-            for e in known:
-                pred = C05_REGIONS.get(e.get("region"))
-                if pred is not None and re.fullmatch(e["bucket"], bucket):
-                    try:
-                        if pred(sub):
-                            ok = True
-                            break
-                    except Exception:  # noqa: BLE001
-                        pass
-            if ok:
+        for commute in (False, True):
+            verdicts, info = C05.check(m, unit, feeds, commute)
+            for bucket, _ in verdicts:
+                sub = {"rule": unit, "model": case["model"], "feeds": feeds_json, "commute": commute}
+                ok = False
+                for e in known:
+                    pred = C05_REGIONS.get(e.get("region"))
+                    if pred is not None and re.fullmatch(e["bucket"], bucket):
+                        try:
+                            if pred(sub):
+                                ok = True
+                                break
+                        except Exception:  # noqa: BLE001
+                            pass
+                if not ok:
+                    return False  # a rule misbehaves here in a way no recorded finding covers
                 hit = True
-            else:
-                return False  # a rule misbehaves here in a way no recorded finding covers
-    return hit
+    return hit or _stepwise_reduction(case, m, feeds, known)
+
+
+def _attributed(unit, model, feeds, bucket, commute, known):
+    from vf import optcommon
+
+    sub = {"rule": unit, "model": optcommon.model_to_json(model), "feeds": [optcommon.feeds_to_json(f) for f in feeds], "commute": commute}
+    for e in known:
+        pred = C05_REGIONS.get(e.get("region"))
+        if pred is not None and re.fullmatch(e["bucket"], bucket):
+            try:
+                if pred(sub):
+                    return True
+            except Exception:  # noqa: BLE001
+                pass
+    return False
+
+
+def _stepwise_reduction(case, m, feeds, known, max_steps=24):
+    """Rules interact (Pad fused into Conv, then the Conv's auto_pad normalised ...): replay the pipeline one firing at a time -
+    fold constants, then the first unit of the default order that fires - and judge each firing on the model it was applied to."""
+    import onnxscript.optimizer as opt
+    from vf import compare
+    from vf.props import C05
+
+    cur = onnx.ModelProto()
+    cur.CopyFrom(m)
+    for _ in range(max_steps):
+        folded = onnx.ModelProto()
+        folded.CopyFrom(cur)
+        try:
+            opt.fold_constants(folded, onnx_shape_inference=True)
+        except Exception:  # noqa: BLE001
+            return False
+        if folded.SerializeToString() != cur.SerializeToString():
+            v, _ = compare.decide(compare.Source(cur), folded, feeds)
+            if v.startswith("violation"):
+                return False  # constant folding itself breaks this model: not a rewrite-rule finding
+            cur = folded
+        fired = False
+        for unit in sorted(C05.rule_units()):
+            for commute in (False, True):
+                r = C05.apply_rule(cur, unit, commute)
+                if r[0] == "raise":
+                    return _attributed(unit, cur, feeds, f"raise:{unit}:{r[2]}", commute, known)
+                if r[1]:
+                    verdicts, _ = C05.check(cur, unit, feeds, commute)
+                    if verdicts:
+                        return all(_attributed(unit, cur, feeds, b, commute, known) for b, _ in verdicts)
+                    cur = r[2]
+                    fired = True
+                    break
+            if fired:
+                break
+        if not fired:
+            return False
+    return False
+
+
+def _live_values(m):
+    """Values needed (transitively) by the graph outputs of the main graph; uses inside subgraphs count for the owning node."""
+    prod = {}
+    for n in m.graph.node:
+        for o in n.output:
+            prod[o] = n
+
+    def node_inputs(n):
+        ins = list(n.input)
+        for a in n.attribute:
+            if a.type == onnx.AttributeProto.GRAPH:
+                for _, sn in [(None, x) for x in _walk_nodes(a.g)]:
+                    ins += list(sn.input)
+        return ins
+
+    live, todo = set(), [o.name for o in m.graph.output]
+    while todo:
+        v = todo.pop()
+        if v in live or not v:
+            continue
+        live.add(v)
+        n = prod.get(v)
+        if n is not None:
+            todo += node_inputs(n)
+    return live
+
+
+def _walk_nodes(g):
+    for n in g.node:
+        yield n
+        for a in n.attribute:
+            if a.type == onnx.AttributeProto.GRAPH:
+                yield from _walk_nodes(a.g)
+
+
+def bn_training_mode_unused_stats(case):
+    """BatchNormalization<training_mode=1> whose running_mean/running_var outputs are dead: onnx_ir's RemoveUnusedNodesPass (run by
+    optimize/rewrite) blanks those outputs and pops training_mode, turning batch statistics into inference statistics."""
+    m = M(case)
+    live = _live_values(m)
+    for n in m.graph.node:
+        if n.op_type == "BatchNormalization" and attr(n, "training_mode", 0) and len(n.output) > 1 and n.output[0] in live \
+                and not any(o in live for o in n.output[1:] if o):
+            return True
+    return False
+
+
+def ir_version_lt4(case):
+    """IR version < 4 requires every initializer to be listed among the graph inputs; the optimizer adds initializers without inputs."""
+    return M(case).ir_version < 4
 
 
 REGIONS = dict(C05_REGIONS)
+REGIONS["ir_version_lt4"] = ir_version_lt4
+REGIONS["bn_training_mode_unused_stats"] = bn_training_mode_unused_stats
 REGIONS["reduces_to_known_rule_finding"] = reduces_to_known_rule_finding
